@@ -124,13 +124,20 @@ def opRows : P String := do
 
 /-! ### tempering (C05, C08, C09) -/
 
+/-- temperatures are Python floats (binary64) in the code even when the arrays are float32: the
+    difference `β' − β` is formed in binary64 and only then meets the array.  The tempering functions
+    depend on the temperatures through that difference only, so the driver hands them `(0, β' − β)`. -/
+def betaPair : P (α × α) := do
+  let b ← f64; let b' ← f64
+  pure (0, Scalar.ofF64 (b' - b))
+
 def opResample : P String := do
-  let β : α ← sc; let β' : α ← sc
+  let (β, β') ← betaPair (α := α)
   let ll : List α ← scs; let lp : List α ← scs; let lq : List α ← scs
   pure (outL (resampleP β β' ll lp lq))
 
 def opRatio : P String := do
-  let β : α ← sc; let β' : α ← sc
+  let (β, β') ← betaPair (α := α)
   let ll : List α ← scs; let lp : List α ← scs; let lq : List α ← scs
   let r := logEvidenceRatio β β' ll lp lq
   let v := logEvidenceRatioVar β β' ll lp lq
@@ -180,7 +187,7 @@ def opBeta (pinned : Bool) : P String := do
   pure (outBeta r ++ " " ++ outS tgt ++ " " ++ extra)
 
 def opEff : P String := do
-  let β : α ← sc; let β' : α ← sc
+  let (β, β') ← betaPair (α := α)
   let ll : List α ← scs; let lp : List α ← scs; let lq : List α ← scs
   pure (outS (effAt β β' ll lp lq))
 
@@ -227,7 +234,7 @@ def smcKit (c : BetaCfg α) (step : α) : Kit (SS α) α :=
     var := fun p β b =>
       let (ll, lp, lq) := popCols p
       match logEvidenceRatioVar β b ll lp lq with | some v => v | none => (0 : α) / 0
-    resample := fun p b idx => { select essSel evFn idx p with beta := some b }
+    resample := fun p b idx => { select essSel evFn idx p with beta := some b, logZ := none, logZerr := none }
     isOne := fun b => decide (b ≤ 1) && decide (1 ≤ b)
     one := 1
     size := fun p => p.x.length
